@@ -190,7 +190,8 @@ class ExcFlow:
         if isinstance(st, ast.While):
             return self._expr_events(f, st.test) + self._block(f, st.body, reraise) + self._block(f, st.orelse, reraise)
         if isinstance(st, (ast.For, ast.AsyncFor)):
-            return self._expr_events(f, st.iter) + self._block(f, st.body, reraise) + self._block(f, st.orelse, reraise)
+            head = [Event(exc, f.qualname, " ".join(c.split()), f.site(st)) for (exc, c) in self.ops(f, st)]
+            return head + self._expr_events(f, st.iter) + self._block(f, st.body, reraise) + self._block(f, st.orelse, reraise)
         if isinstance(st, (ast.With, ast.AsyncWith)):
             evs = []
             for it in st.items:
